@@ -48,6 +48,8 @@ var requests = []scen.Req{
 	{URI: "/p?a=2", Headers: [][2]string{scen.Form(), {"Cookie", "c=2; d=x; e=1"}}, Body: "a=2&c=x&d=1"},
 	{URI: "/p?b=x", Headers: [][2]string{scen.Form()}, Body: "A=1&a=2&b=x"},
 	{URI: "/p?a=%20X&b=x%20&c=2"},
+	{URI: "/p?a=x&b=1&c=x", PreArgs: [][2]string{{"p1", "x"}, {"p2", "1"}}},
+	{URI: "/p?b=x&a=1", PreArgs: [][2]string{{"p1", "x"}}},
 }
 
 type program struct {
@@ -102,7 +104,9 @@ func programs(thorough bool, emit func(p program)) {
 	}
 	// argument limit: which arguments survive must not depend on order
 	for _, t1 := range []string{"ARGS_GET", "ARGS"} {
-		emit(program{conf: header + "SecArgumentsLimit 2\n" + rule(1, t1, "", ops[0], "pass,log,setvar:tx.c=+1") + "\n"})
+		for _, lim := range []string{"2", "3", "4"} {
+			emit(program{conf: header + "SecArgumentsLimit " + lim + "\n" + rule(1, t1, "", ops[0], "pass,log,setvar:tx.c=+1") + "\n"})
+		}
 	}
 }
 
